@@ -195,10 +195,19 @@ def check_exit(ex: Exec, C: FnContract, env0, outcome, result: V, exc, res: FnRe
                 ex.oblige('raises:' + rc.label, cl.label, z3.Implies(m, ex.spec_bool(cl.expr, env)), cl.tags or rc.tags)
     for cl in C.exits_ensure:
         ex.oblige('exit', cl.label, ex.spec_bool(cl.expr, env), cl.tags)
+    if C.cancel_must_propagate:
+        # a CancelledError delivered to this task at one of its suspension points must leave the function as CancelledError
+        ok = True
+        if st.flags.get('cancelled'):
+            ok = outcome == 'raise'
+            if ok:
+                ex.oblige('raises', 'cancel_not_swallowed', smt.issub(smt.tag(exc.exc.term), smt.CLASSES['CancelledError']), ('cancel',))
+        if not ok:
+            ex.oblige('raises', 'cancel_not_swallowed', z3.BoolVal(False), ('cancel',))
     I = ex.interference()
     if I is not None and C.suspends:
         for cl in I.inv:
             ex.oblige('inv@exit', cl.label, ex.spec_bool(cl.expr, env), cl.tags)
     ex.check_frame('exit', env)
-    if ex.ch.fresh_part and len(res.canaries) < 3:
+    if ex.ch.fresh_part and (len(res.canaries) < 3 or (len(res.canaries) < 6 and not any(c.name.endswith(outcome) for c in res.canaries))):
         res.canaries.append(Obligation('%s/canary:%s' % (C.key, outcome), st.pc, z3.BoolVal(False), ('canary',), {'trace': list(st.trace)}))
